@@ -86,6 +86,19 @@ def control_switches(b, bi):
     return out
 
 
+def control_switches_transitive(b, bi):
+    """control dependence closed under nesting: `if a { if b { X } }` makes X depend on b's switch and, through it, on a's"""
+    out, work, seen = [], [bi], set()
+    while work:
+        x = work.pop()
+        for sb, sw in control_switches(b, x):
+            if sb not in seen:
+                seen.add(sb)
+                out.append((sb, sw))
+                work.append(sb)
+    return out
+
+
 def check_unconditional_reindex(ctx, f, p):
     """every cached clock / fragment clock is re-indexed: the per-element calls depend on nothing but the loop's own iterator"""
     b = cfg.body(f.fns[p])
@@ -94,7 +107,7 @@ def check_unconditional_reindex(ctx, f, p):
     ctx.floor("per-clock re-index calls in %s" % norm_fn(p).split("::")[-1], len(sites), 2)
     for k, (bi, t) in util.ordinal_keys(sites, lambda it: "%s|%s" % (norm_fn(p).split("ChangeGraph::")[-1], norm_fn(it[1].get("res") or it[1].get("fn")).split("::")[-1])):
         bad = []
-        for sb, sw in control_switches(b, bi):
+        for sb, sw in control_switches_transitive(b, bi):
             src = b.bool_operand_source(sw["op"])
             if src and src["kind"] == "discr" and util.base_ty(src.get("ty") or "") == "core::option::Option":
                 d = b.single_def(src["origin"][0])
@@ -176,7 +189,7 @@ def run(ctx):
     for k, (bi, t) in util.ordinal_keys(steps, lambda it: "undo_op|%s" % callee(it[1]).split("::")[-1]):
         name = callee(t).split("::")[-1]
         bad = []
-        for sb, sw in control_switches(ub, bi):
+        for sb, sw in control_switches_transitive(ub, bi):
             src = ub.bool_operand_source(sw["op"])
             flds = set()
             if src and src["kind"] in ("discr", "place"):
